@@ -40,6 +40,12 @@ pub mod vp_indexset {
         { unimplemented!() }
 
         #[verifier::external_body]
+        pub fn first(&self) -> (r: Option<&T>)
+            requires self.wf(),
+            ensures r.is_some() == (self.view().len() > 0), r.is_some() ==> *r.unwrap() == self.view()[0],
+        { unimplemented!() }
+
+        #[verifier::external_body]
         pub fn is_empty(&self) -> (r: bool)
             requires self.wf(),
             ensures r == (self.view().len() == 0),
